@@ -29,7 +29,9 @@ Spans also end through `complete_with` (`ok_lvl`/`err_lvl` on fns returning Ok a
 completed with `complete()` / `complete_with(..)`, `new_span!` guards dropped or completed with
 `complete_with`), and scripted PANICS unwind through chains of synchronous span fns,
 `Traceparent::push().call(..)` and `Frame::push(..).call(..)` up to a `catch_unwind`, after which
-the same thread carries on (next children, next roots). Spans whose incoming context is established
+the same thread carries on (next children, next roots). CANCELLATION: chains of async spans whose future is polled by
+hand and dropped while suspended (sampled: one event per started span with its own ids; unsampled:
+nothing; `Traceparent::current()` restored after the drop). Spans whose incoming context is established
 by the macro's `setup:` control parameter (`#[emit::span(setup: ..)]` and level-named attributes,
 sync and async): the setup fn returns a guard that pushes AND enters a sampled / unsampled /
 invalid / same-trace header (or touches nothing, as control) and is dropped when the fn returns;
@@ -696,7 +698,15 @@ impl<'a> Oracle<'a> {
                     ""
                 };
                 self.bad(
-                    format!("{}-span-events:{}{}:{}", evs.len().min(2), why, under, where_),
+                    format!(
+                        "{}{}-span-events:{}{}:{}",
+                        // (async nodes that never get to their end are the ones dropped while suspended)
+                        if node.unwinds && node.is_async { "cancelled:" } else { "" },
+                        evs.len().min(2),
+                        why,
+                        under,
+                        where_
+                    ),
                     format!(
                         "node {} ({}, started under {}) produced {} span events, expected {}",
                         node.id,
@@ -712,7 +722,7 @@ impl<'a> Oracle<'a> {
                 for e in &evs {
                     if e.trace != inside.trace.map(hex_trace) || e.span != inside.span.map(hex_span) || e.parent != want_parent {
                         self.bad(
-                            format!("span-event-ids:{}", where_),
+                            format!("{}span-event-ids:{}", if node.unwinds && node.is_async { "cancelled:" } else { "" }, where_),
                             format!(
                                 "span event of node {} carries trace_id={:?} span_id={:?} span_parent={:?}; current traceparent inside it {}, where it started {}",
                                 node.id,
